@@ -21,7 +21,7 @@ def build_corpus(out, tier, seed, wd, dump, kinds=("tokseq", "lexer", "programs"
             f.write(json.dumps(c, separators=(",", ":")) + "\n")
             n += 1
         if "tokseq" in kinds:
-            for cfg in (["MC_TokenSeq_q3", "MC_TokenSeq_q4"] if tier == "quick" else ["MC_TokenSeq_t4", "MC_TokenSeq_t3all", "MC_TokenSeq_t5"]):
+            for cfg in (["MC_TokenSeq_q3", "MC_TokenSeq_q4", "MC_TokenSeq_se5"] if tier == "quick" else ["MC_TokenSeq_t4", "MC_TokenSeq_t3all", "MC_TokenSeq_t5"]):
                 pp = os.path.join(wd, cfg + ".ndjson")
                 cnt, res = vlib.generate(out.pid, "MC_TokenSeq", cfg, pp, timeout=3000)
                 out.add_model(res)
@@ -29,13 +29,13 @@ def build_corpus(out, tier, seed, wd, dump, kinds=("tokseq", "lexer", "programs"
                 for p in vlib.read_ndjson(pp):
                     emit({"src": "".join(a + b for a, b in p["parts"]).rstrip(" "), "tag": "tokseq"})
         if "lexer" in kinds:
-            cfg = "MC_Lexer_q3" if tier == "quick" else "MC_Lexer_t4"
-            pp = os.path.join(wd, cfg + ".ndjson")
-            cnt, res = vlib.generate(out.pid, "Lexer", cfg, pp, timeout=3000)
-            out.add_model(res)
-            parts.append("%s=%d" % (cfg, cnt))
-            for p in vlib.read_ndjson(pp):
-                emit({"input": p["input"], "tag": "chars"})
+            for cfg in (["MC_Lexer_q3", "MC_Lexer_ws5"] if tier == "quick" else ["MC_Lexer_t4", "MC_Lexer_ws5", "MC_Lexer_str5", "MC_Lexer_num5"]):
+                pp = os.path.join(wd, cfg + ".ndjson")
+                cnt, res = vlib.generate(out.pid, "Lexer", cfg, pp, timeout=3000)
+                out.add_model(res)
+                parts.append("%s=%d" % (cfg, cnt))
+                for p in vlib.read_ndjson(pp):
+                    emit({"input": p["input"], "tag": "chars"})
         if "programs" in kinds:
             for cfg in (["MC_Programs_q3", "MC_Programs_chains7"] if tier == "quick" else ["MC_Programs_t4", "MC_Programs_conds6", "MC_Programs_lists5", "MC_Programs_calls8"]):
                 pp = os.path.join(wd, cfg + ".ndjson")
@@ -47,10 +47,10 @@ def build_corpus(out, tier, seed, wd, dump, kinds=("tokseq", "lexer", "programs"
                         emit({"src": progs.render(p["toks"], sep="\n\n"), "ast": p["ast"], "tag": "program"})
         if "growth" in kinds:
             for pat in PATTERNS:
-                for k in ([10, 100, 400] if tier == "quick" else [10, 100, 1000, 3000]):
+                for k in ([10, 100, 4000] if tier == "quick" else [10, 100, 1000, 20000]):
                     emit({"src": pat * k + TAILS.get(pat, ""), "tag": "growth", "pattern": pat, "k": k})
         if "soup" in kinds:
-            alphabet = list("5a+-*=.,;:()[]{}~?!|<>&^#_$@`\"' \n\t\\") + ["é", "😀", "\r", "\x01", "5.5", "--", "~~", "?>", "|>", ";;", "\n\n", " "]
+            alphabet = list("5a+-*=.,;:()[]{}~?!|<>&^#_$@`\"' \n\t\\") + ["é", "😀", "\r", "\x01", "\u00a0", "\u2028", "\u00a0\n", "\u2028\n", "5.5", "--", "~~", "?>", "|>", ";;", "\n\n", " "]
             for _ in range(300 if tier == "quick" else 5000):
                 k = rnd.choice([20, 60, 200, 1000] if tier == "quick" else [20, 200, 2000, 20000])
                 emit({"src": "".join(rnd.choice(alphabet) for _ in range(k)), "tag": "soup"})
@@ -59,7 +59,8 @@ def build_corpus(out, tier, seed, wd, dump, kinds=("tokseq", "lexer", "programs"
 
 def observe(out, cases, n, wd, timeout=6):
     obs = os.path.join(wd, "obs.ndjson")
-    st = vlib.run_workers("compile", cases, n, obs, timeout=timeout)
+    # Rust's default thread stack: a host that compiles on an ordinary thread has no more
+    st = vlib.run_workers("compile", cases, n, obs, timeout=timeout, env={"GVERIF_STACK_MB": "2"})
     return obs, st
 
 
